@@ -783,6 +783,27 @@ where
         self
     }
 
+    /// Verification hook: run the acceptor's request processing on a PDU.
+    ///
+    /// Returns the PDU that would be sent back and, when the association is accepted,
+    /// the requestor's maximum PDU length and the negotiated presentation contexts.
+    #[cfg(dicom_rs_verif)]
+    pub fn verif_process_rq(
+        &self,
+        msg: Pdu,
+    ) -> (Pdu, Option<(u32, Vec<PresentationContextNegotiated>)>) {
+        match self.process_a_association_rq(msg) {
+            Ok((pdu, negotiated, _)) => (
+                pdu,
+                Some((
+                    negotiated.peer_max_pdu_length,
+                    negotiated.presentation_contexts,
+                )),
+            ),
+            Err((pdu, _)) => (pdu, None),
+        }
+    }
+
     /// Process an association request PDU
     ///
     /// In the success case, returns
